@@ -284,3 +284,17 @@ Proof.
   destruct (rt_names_layout fmt Hn t off abbr Hr Ho) as (p & Hp & Hres).
   unfold kf_timeformat. rewrite Ea. unfold kf_time. rewrite Hp, (Hres [] 0 0). cbn [fst]. apply bytes_eqb_refl.
 Qed.
+
+(* ---- error markers ---- *)
+Theorem time_error_marker : forall str fmt names lo fo,
+  parse_layout (named_format fmt) str = None -> kf_time str fmt names lo fo = timeErrorParsing.
+Proof. intros. unfold kf_time. rewrite H. reflexivity. Qed.
+Theorem buckettime_error_marker : forall str b fmt names lo fo l,
+  bucket_layout b = Some l -> parse_layout (named_format fmt) str = None ->
+  kf_buckettime str b fmt names lo fo = timeErrorParsing.
+Proof. intros. unfold kf_buckettime. rewrite H, H0. reflexivity. Qed.
+Theorem timeformat_error_marker : forall arg fmt off abbr, atoi arg = None -> kf_timeformat arg fmt off abbr = timeErrorNum.
+Proof. intros. unfold kf_timeformat. rewrite H. reflexivity. Qed.
+(* text after the layout's last element, or a missing element, is an error: e.g. trailing garbage *)
+Lemma parse_toks_extra : forall v st, v <> [] -> parse_toks [] v st = None.
+Proof. intros v st H. destruct v; [congruence|reflexivity]. Qed.
